@@ -44,7 +44,12 @@ ASSUMPTIONS = ["exact arithmetic in the theorems; implementation compared to 1e-
                "length of the probability vector is not validated by the code (not part of the property); zip truncation is modelled"]
 RULE = ("tie: decision cases (dims, probabilities, mode), (n,k,states,probs) purification vectors and in-circuit plans diffed against "
         "the Lean model; oracle: partial trace of the real circuit vs sum_i p_i|psi_i><psi_i| and reject/accept of probability "
-        "vectors; non-trivial = k>=2 with at least two non-zero probabilities, or a rejected vector")
+        "vectors; non-trivial = k>=2 with at least two non-zero probabilities, or a rejected vector; input-diversity section "
+        "(_diversity_*): the same ensembles / probability vectors / options in every ordinary Python form (list / tuple / ndarray "
+        "of int64, float32, float64, complex64, complex128, numpy scalars; heavy head + light tail, exact zeros and ones by "
+        "position, global phases, negative zeros; opt_params None / {} / partial / full incl. lr=1 whose effect on the reduced "
+        "state is computed independently; static helper on permuted sub-lists of larger hosts with ints / Qubit objects; dict "
+        "and gate reuse; k = 1..5, n = 1..3), same observable, keys div:* / div-seq:* / div-reject:*")
 
 # ----------------------------------------------------------------------------------------------
 # AST fingerprint of the validation code the model was written against
@@ -515,23 +520,26 @@ def run_widths(ctx, kdense):
 # ----------------------------------------------------------------------------------------------
 # tie: purification vector / in-circuit plan as produced by the REAL code
 # ----------------------------------------------------------------------------------------------
-def _tie_purification(ctx, n, k, states, probs, reset, stage):
+def _tie_purification(ctx, n, k, states, probs, reset, stage, modes=("classical", "incircuit"), form=""):
+    """`states` / `probs` go to the REAL code in the form given (list / tuple / ndarray of any dtype); the Lean op gets the
+    same numbers as doubles."""
     from qclib.state_preparation.mixed import MixedInitialize
     Rec = recorder()
-    eff = probs if probs is not None else [1 / k] * k
-    # classical: what is handed to the initializer IS pure_state
-    stage.append("classical")
-    g = MixedInitialize(states, initializer=Rec, probabilities=probs, classical=True, reset=reset)
-    Rec.log.clear()
-    d = g.definition
-    w = Rec.log[0]
-    ctx.tie({"op": "purif", "k": k, "n": n, "states": jstates(states), "probs": list(eff)},
-            [f"w {i} ; {fbits(z.real)} {fbits(z.imag)}" for i, z in enumerate(w)],
-            label=f"purif n={n} k={k} lenP={len(eff)}")
-    impl_wrap = wrap_lines(d)
+    eff = [float(x) for x in probs] if probs is not None else [1 / k] * k
     a = clog2(k)
-    ctx.tie({"op": "wrap", "k": k, "n": n, "reset": reset}, impl_wrap, label=f"wrap n={n} k={k} reset={reset}")
-    if n >= 2 and k >= 2 and len(eff) <= 2 ** a:
+    if "classical" in modes:
+        # classical: what is handed to the initializer IS pure_state
+        stage.append("classical")
+        g = MixedInitialize(states, initializer=Rec, probabilities=probs, classical=True, reset=reset)
+        Rec.log.clear()
+        d = g.definition
+        w = Rec.log[0]
+        ctx.tie({"op": "purif", "k": k, "n": n, "states": jstates(states), "probs": list(eff)},
+                [f"w {i} ; {fbits(z.real)} {fbits(z.imag)}" for i, z in enumerate(w)],
+                label=f"purif n={n} k={k} lenP={len(eff)}{form}")
+        impl_wrap = wrap_lines(d)
+        ctx.tie({"op": "wrap", "k": k, "n": n, "reset": reset}, impl_wrap, label=f"wrap n={n} k={k} reset={reset}{form}")
+    if "incircuit" in modes and n >= 2 and k >= 2 and len(eff) <= 2 ** a:
         stage.append("incircuit")
         g = MixedInitialize(states, initializer=Rec, probabilities=probs, classical=False, reset=reset)
         Rec.log.clear()
@@ -555,22 +563,23 @@ def _tie_purification(ctx, n, k, states, probs, reset, stage):
                          " ".join(f" {fbits(z.real)} {fbits(z.imag)}" for z in amps))
         lines += wrap_lines(d)
         ctx.tie({"op": "incirc", "k": k, "n": n, "reset": reset, "states": jstates(states), "probs": list(eff)},
-                lines, label=f"incirc n={n} k={k} lenP={len(eff)} reset={reset}")
+                lines, label=f"incirc n={n} k={k} lenP={len(eff)} reset={reset}{form}")
 
 
-def tie_purification(ctx, n, k, states, probs, reset=True):
+def tie_purification(ctx, n, k, states, probs, reset=True, modes=("classical", "incircuit"), form="", rep=None):
     """Dump what the REAL code hands to its sub-initializer.  The ensembles generated here are valid
     (except deliberately short probability lists), so an exception out of qclib is a violation of
     the property ("construction never fails"), not a harness error."""
     stage = []
     try:
-        _tie_purification(ctx, n, k, states, probs, reset, stage)
+        _tie_purification(ctx, n, k, states, probs, reset, stage, modes, form)
     except Exception as e:  # noqa: BLE001
         mode = stage[-1] if stage else "classical"
-        rep = {"kind": "ensemble", "n": n, "k": k, "classical": mode == "classical", "reset": reset, "static": False,
-               "states": [[[float(z.real), float(z.imag)] for z in s] for s in states],
-               "probs": None if probs is None else [repr(x) for x in probs]}
-        ctx.fail(f"ensemble:{mode}:n={n}:k={k}:tie:construct-raises",
+        if rep is None:
+            rep = {"kind": "ensemble", "n": n, "k": k, "classical": mode == "classical", "reset": reset, "static": False,
+                   "states": [[[float(np.real(z)), float(np.imag(z))] for z in s] for s in states],
+                   "probs": None if probs is None else [repr(float(x)) for x in probs]}
+        ctx.fail(f"ensemble:{mode}:n={n}:k={k}{form}:tie:construct-raises",
                  f"valid ensemble raised {type(e).__name__}: {str(e)[:200]}", rep)
 
 
@@ -599,7 +608,7 @@ def run_purifications(ctx, nmax, kmax):
             if ctx.quick:
                 combos = [combos[int(i)] for i in r.choice(len(combos), size=6, replace=False)]
             for j, (sk, pk) in enumerate(combos):
-                tie_purification(ctx, n, k, make_states(r, n, k, sk), make_probs(r, k, pk), reset=bool(j % 2))
+                tie_purification(ctx, n, k, make_states(r, n, k, sk), make_probs(r, k, pk), reset=(j % 3 == 0))
             # zip truncation: fewer probabilities than states (accepted by the code)
             if k >= 2:
                 tie_purification(ctx, n, k, make_states(r, n, k, "complex"), make_probs(r, k - 1, "random"))
@@ -608,7 +617,7 @@ def run_purifications(ctx, nmax, kmax):
 # ----------------------------------------------------------------------------------------------
 # oracle: reduced state of the real circuit
 # ----------------------------------------------------------------------------------------------
-def oracle_case(ctx, n, k, states, probs, classical, reset, skind, pkind, via_static=False):
+def oracle_case(ctx, n, k, states, probs, classical, reset, skind, pkind, via_static=False, _patched=False):
     from qclib.state_preparation.mixed import MixedInitialize
     from qiskit.quantum_info import DensityMatrix, Statevector, partial_trace
     from qiskit import QuantumCircuit
@@ -653,6 +662,16 @@ def oracle_case(ctx, n, k, states, probs, classical, reset, skind, pkind, via_st
     err = float(np.abs(rho - ideal).max())
     ctx.count(f"{mode}:{'reset' if has_reset else 'noreset'}")
     nz = sum(1 for p in eff if p > 0)
+    if not _patched:
+        # precision limit of the trusted layers below mixed.py?  same case with qiskit's synthesis passes bypassed
+        import framework
+
+        def rerun():
+            sub = framework.Ctx(ctx.pid, ctx.tier, 0)
+            oracle_case(sub, n, k, states, probs, classical, reset, skind, pkind, via_static, True)
+            return 1.0 if sub.failures else 0.0
+        if _classify_precision(ctx, f"{mode}:n={n}:k={k}:{skind}:{pkind}", err, rerun, rep, not classical):
+            return
     if err > 1e-7:
         ctx.fail(key + ":reduced-state", f"max |Tr_aux(out) - sum p_i|psi_i><psi_i|| = {err:.3e}", dict(rep, err=err))
     elif e_aux > 1e-7:
@@ -970,6 +989,976 @@ def boundary_ensembles(ctx):
         oracle_case(ctx, n, k, states, probs, False, False, "bnd-min", "random")
 
 
+# ================================================================================================
+# INPUT-DIVERSITY PASS
+#   The same mathematical ensemble / probability vector / option set is handed to the real code in every ordinary Python
+#   FORM (container, dtype, scale, sign/phase structure, call form, size); the observable is always the property's own:
+#   reduced state of the data qubits vs sum_i p_i |psi_i><psi_i| computed by the harness from the user-side input
+#   (np.asarray(member, dtype=complex), float(p_i)), and reject/accept of probability vectors.
+#   Every case is a JSON-serialisable dict that `_div_case` / `_div_reject` / `_div_seq` execute (run and replay share them).
+# ================================================================================================
+DIV_SFORMS_C128 = ["ndarray-list-c128", "ndarray-2d-c128", "ndarray-tuple-c128", "pyseq-list-complex", "pyseq-tuple-complex",
+                   "pyseq-list-npcomplex128"]
+DIV_SFORMS_REAL = ["ndarray-list-f64", "ndarray-2d-f64", "pyseq-list-float", "pyseq-list-npfloat64"]
+DIV_SFORMS_F32 = ["ndarray-list-f32", "ndarray-list-c64", "ndarray-2d-c64", "pyseq-list-npfloat32"]
+DIV_SFORMS_INT = ["ndarray-2d-int64", "ndarray-list-int64", "pyseq-list-int", "pyseq-tuple-int", "pyseq-list-npint64"]
+DIV_PFORMS = ["omitted", "none", "list", "tuple", "ndarray-f64", "list-npfloat64", "ndarray-f32", "list-npfloat32",
+              "list-int", "tuple-int", "ndarray-int64"]
+
+
+def _div_members(S, sform):
+    """the ensemble S (list of complex128 vectors, the mathematical object) in the container / dtype form `sform`"""
+    real = all(np.all(s.imag == 0) for s in S)
+    integer = real and all(np.all(s.real == np.round(s.real)) for s in S)
+    f32 = all(np.all(np.float32(s.real) == s.real) and np.all(np.float32(s.imag) == s.imag) for s in S)
+    if (sform in DIV_SFORMS_REAL + DIV_SFORMS_INT + ["ndarray-list-f32", "pyseq-list-npfloat32"] and not real) or \
+            (sform in DIV_SFORMS_F32 and not f32) or (sform in DIV_SFORMS_INT and not integer):
+        raise RuntimeError(f"harness: ensemble not representable as {sform}")
+    if sform == "ndarray-list-c128":
+        return [np.array(s, dtype=np.complex128) for s in S]
+    if sform == "ndarray-2d-c128":
+        return np.array(S, dtype=np.complex128)
+    if sform == "ndarray-tuple-c128":
+        return tuple(np.array(s, dtype=np.complex128) for s in S)
+    if sform == "pyseq-list-complex":
+        return [[complex(z) for z in s] for s in S]
+    if sform == "pyseq-tuple-complex":
+        return tuple(tuple(complex(z) for z in s) for s in S)
+    if sform == "pyseq-list-npcomplex128":
+        return [[np.complex128(z) for z in s] for s in S]
+    if sform == "ndarray-list-f64":
+        return [np.array(s.real, dtype=np.float64) for s in S]
+    if sform == "ndarray-2d-f64":
+        return np.array([s.real for s in S], dtype=np.float64)
+    if sform == "pyseq-list-float":
+        return [[float(x) for x in s.real] for s in S]
+    if sform == "pyseq-list-npfloat64":
+        return [[np.float64(x) for x in s.real] for s in S]
+    if sform == "ndarray-list-f32":
+        return [np.array(s.real, dtype=np.float32) for s in S]
+    if sform == "pyseq-list-npfloat32":
+        return [[np.float32(x) for x in s.real] for s in S]
+    if sform == "ndarray-list-c64":
+        return [np.array(s, dtype=np.complex64) for s in S]
+    if sform == "ndarray-2d-c64":
+        return np.array(S, dtype=np.complex64)
+    if sform == "ndarray-2d-int64":
+        return np.array([s.real for s in S], dtype=np.int64)
+    if sform == "ndarray-list-int64":
+        return [np.array(s.real, dtype=np.int64) for s in S]
+    if sform == "pyseq-list-int":
+        return [[int(x) for x in s.real] for s in S]
+    if sform == "pyseq-tuple-int":
+        return tuple(tuple(int(x) for x in s.real) for s in S)
+    if sform == "pyseq-list-npint64":
+        return [[np.int64(x) for x in s.real] for s in S]
+    raise ValueError(sform)
+
+
+def _div_probs(P, pform):
+    """the probability vector P (python floats) in the container / dtype form `pform` ('omitted' / 'none': P is uniform)"""
+    if pform in ("omitted", "none"):
+        return None
+    if "f32" in pform or "float32" in pform:
+        if any(float(np.float32(x)) != x for x in P):
+            raise RuntimeError("harness: probabilities not representable in float32")
+    if "int" in pform and any(x != int(x) for x in P):
+        raise RuntimeError("harness: probabilities not integers")
+    return {"list": lambda: [float(x) for x in P], "tuple": lambda: tuple(float(x) for x in P),
+            "ndarray-f64": lambda: np.array(P, dtype=np.float64), "list-npfloat64": lambda: [np.float64(x) for x in P],
+            "ndarray-f32": lambda: np.array(P, dtype=np.float32), "list-npfloat32": lambda: [np.float32(x) for x in P],
+            "list-int": lambda: [int(x) for x in P], "tuple-int": lambda: tuple(int(x) for x in P),
+            "ndarray-int64": lambda: np.array([int(x) for x in P], dtype=np.int64)}[pform]()
+
+
+def _div_states(r, n, k, skind):
+    """valid ensembles by structure (complex128 vectors)"""
+    dim = 2 ** n
+    if skind == "identical":
+        s = rand_state(r, n, "complex")
+        return [s.copy() for _ in range(k)]
+    if skind == "phase-family":                  # members differ by a global phase only: rho = |psi><psi| whatever p is
+        s = rand_state(r, n, "complex")
+        return [ph * s for ph in ([1, -1, 1j, -1j] * 3)[:k]]
+    if skind == "phase-family-real":
+        s = rand_state(r, n, "real")
+        return [ph * s for ph in ([1, -1] * 5)[:k]]
+    if skind == "orthogonal":
+        q, _ = np.linalg.qr(r.normal(size=(dim, dim)) + 1j * r.normal(size=(dim, dim)))
+        return [q[:, i % dim].copy() for i in range(k)]
+    out = []
+    for i in range(k):
+        v = np.zeros(dim, dtype=complex)
+        if skind == "complex":
+            v = r.normal(size=dim) + 1j * r.normal(size=dim)
+        elif skind == "real-neg":                # zero imaginary part, at least one negative and one positive entry
+            v = r.normal(size=dim) + 0j
+            v[int(r.integers(dim))] = -1.5
+            v[(int(np.argmin(v.real)) + 1) % dim] = 0.7
+        elif skind == "all-neg":
+            v = -(np.abs(r.normal(size=dim)) + 0.05) + 0j
+        elif skind == "imag":
+            v = 1j * r.normal(size=dim)
+        elif skind in ("dyadic-real", "dyadic-complex"):   # entries 0 / +-2^-j (exact in float32, norm exactly 1)
+            cnt = 4 ** (n // 2)
+            pos = [int(x) for x in r.choice(dim, size=cnt, replace=False)]
+            phs = [1, -1] if skind == "dyadic-real" else [1, -1, 1j, -1j]
+            for j in pos:
+                v[j] = phs[int(r.integers(len(phs)))] / math.sqrt(cnt)
+            v[pos[0]] = (-1 if skind == "dyadic-real" or i % 2 else -1j) / math.sqrt(cnt)
+        elif skind == "basis-int":
+            v[(3 * i + 1) % dim] = [1, -1][i % 2]
+        elif skind == "basis-phase":
+            v[(3 * i + 1) % dim] = [1, -1, 1j, -1j][i % 4]
+        elif skind in ("light-tail-end", "light-tail-start", "light-tail-mixed"):
+            mags = np.array(([1.0, 0.8] + [1e-3, 1e-6, 1e-4, 1e-5] * 2)[:dim]) if dim > 2 else np.array([1.0, 1e-3 if i % 2 else 1e-6])
+            if skind == "light-tail-start":
+                mags = mags[::-1].copy()
+            elif skind == "light-tail-mixed":
+                mags = mags[r.permutation(dim)]
+            v = mags * np.exp(2j * np.pi * r.random(dim))
+        elif skind == "equal-moduli":
+            v = np.array([[1, -1, 1j, -1j][int(r.integers(4))] for _ in range(dim)], dtype=complex)
+        elif skind == "subtree":                 # the whole norm sits in one half of the amplitude tree
+            half = dim // 2
+            lo = (i % 2) * half
+            v[lo:lo + half] = r.normal(size=half) + 1j * r.normal(size=half)
+        elif skind == "sparse":
+            for j in r.choice(dim, size=min(dim, 1 + i % 2), replace=False):
+                v[j] = r.normal() + 1j * r.normal() + 0.1
+        elif skind == "neg-zero":                # real, negative zeros in the empty slots, one negative entry
+            v = np.array([complex(-0.0, 0.0)] * dim)
+            v[i % dim] = 0.6
+            v[(i + 1) % dim] = -0.8
+            out.append(v)                        # |v|^2 = 1 up to one ulp; not renormalised (keeps the signed zeros)
+            continue
+        else:
+            raise ValueError(skind)
+        out.append(v / np.linalg.norm(v))
+    return out
+
+
+def _div_pvec(r, k, pkind):
+    """valid probability vectors by structure (python floats); None when the structure does not exist for this k"""
+    def pos_of(name):
+        return {"first": 0, "middle": k // 2, "last": k - 1}[name]
+    if pkind == "uniform":
+        return [1 / k] * k
+    if pkind == "dyadic":
+        return _fixed_probs(k)
+    if pkind == "random":
+        return make_probs(r, k, "random")
+    if pkind.startswith("onehot-"):
+        p = [0.0] * k
+        p[pos_of(pkind[7:])] = 1.0
+        return p
+    if pkind.startswith("zero-") and not pkind.startswith("zero-dyadic-"):
+        if k < 2:
+            return None
+        p = np.array(make_probs(r, k, "random"))
+        p[pos_of(pkind[5:])] = 0.0
+        p = p / p.sum()
+        return [float(x) for x in p]
+    if pkind.startswith("zero-dyadic-"):         # an exact zero and float32-exact other entries
+        if k < 3:
+            return None
+        q = _fixed_probs(k - 1)
+        j = pos_of(pkind[12:])
+        return q[:j] + [0.0] + q[j:]
+    if pkind in ("heavy-head", "light-head", "heavy-middle"):
+        if k < 2:
+            return None
+        tail = ([1e-3, 1e-6, 1e-4, 1e-5] * 2)[:k - 1]
+        head = 1.0 - sum(tail)
+        p = [head] + tail
+        if pkind == "light-head":
+            p = p[::-1]
+        elif pkind == "heavy-middle":
+            p = tail[:k // 2] + [head] + tail[k // 2:]
+        return p
+    if pkind == "f32-sqrt-exact":                # float32 entries whose square roots are float32-exact as well
+        return {1: [1.0], 4: [0.25] * 4, 5: [0.25, 0.25, 0.0, 0.25, 0.25]}.get(k)
+    if pkind == "f32-inexact":                   # float32 entries whose exact (float64) sum is off 1 by ~1e-8: NOT valid to 1e-9
+        base = {2: [0.3, 0.7], 3: [0.3, 0.3, 0.4], 4: [0.1, 0.2, 0.3, 0.4], 5: [0.1, 0.2, 0.3, 0.3, 0.1]}.get(k)
+        if base is None:
+            return None
+        p = [float(np.float32(x)) for x in base]
+        return p if abs(sum(p) - 1.0) > 3e-9 else None
+    if pkind == "f32-sqrt-inexact":              # float32-exact entries summing to exactly 1, square roots irrational
+        return {2: [0.5, 0.5], 3: [0.5, 0.25, 0.25], 4: [0.5, 0.125, 0.25, 0.125], 5: [0.125, 0.5, 0.125, 0.125, 0.125]}.get(k)
+    raise ValueError(pkind)
+
+
+class _DivDegenerate(Exception):
+    pass
+
+
+def _lr1(vec, partition=None):
+    """best rank-1 (product) approximation of `vec` across the bipartition (tensor axes in `partition` | the rest),
+    normalised: what LowRankInitialize documents for opt_params={'lr': 1}.  Written from the definition."""
+    w = np.asarray(vec, dtype=complex)
+    nq = int(round(math.log2(len(w))))
+    if nq < 2:
+        return w
+    part = sorted(partition) if partition is not None else list(range(nq // 2 + nq % 2))
+    rest = [j for j in range(nq) if j not in part]
+    t = w.reshape((2,) * nq).transpose(rest + part).reshape(2 ** len(rest), 2 ** len(part))
+    u, s, vh = np.linalg.svd(t)
+    if s[0] - s[1] < 1e-3:
+        raise _DivDegenerate("leading Schmidt coefficient degenerate: rank-1 truncation not unique")
+    m = np.outer(u[:, 0], vh[0])
+    return m.reshape((2,) * nq).transpose(list(np.argsort(rest + part))).reshape(-1)
+
+
+def _div_ideal(S, P, n, k, mode, opt):
+    """sum_i p_i |psi_i><psi_i|; for opt_params['lr'] == 1 the documented rank-1 approximation of what is prepared"""
+    a = clog2(k)
+    exact = sum(p * np.outer(s, np.conj(s)) for p, s in zip(P, S))
+    if not opt or opt.get("lr") != 1:
+        return exact, exact
+    part = opt.get("partition")
+    if mode == "classical":
+        w = np.zeros(2 ** (n + a), dtype=complex)
+        for i, (p, s) in enumerate(zip(P, S)):
+            for x in range(2 ** n):
+                w[x * 2 ** a + i] = math.sqrt(p) * s[x]
+        m = _lr1(w, part).reshape(2 ** n, 2 ** a)
+        return m @ m.conj().T, exact
+    aux = np.array([math.sqrt(p) for p in P] + [0.0] * (2 ** a - k), dtype=complex)
+    aux = _lr1(aux, part)
+    rho = np.zeros((2 ** n, 2 ** n), dtype=complex)
+    for i in range(2 ** a):
+        if i < k:
+            t = _lr1(S[i], part)
+        else:                                    # no controlled block fires for a padding index: data stays |0..0>
+            t = np.zeros(2 ** n, dtype=complex)
+            t[0] = 1
+        rho += abs(aux[i]) ** 2 * np.outer(t, t.conj())
+    return rho, exact
+
+
+def _div_reduced(circ, data, pure=False):
+    """reduced state of the wires `data` (bit j of the index = data[j]) and the deviation of all other wires from |0..0>.
+    `pure` only when the caller built the gate with reset=False: a reset may sit inside a composite gate, and Statevector
+    would SAMPLE it."""
+    from qiskit.quantum_info import DensityMatrix, Statevector, partial_trace
+    m = circ.num_qubits
+    st = Statevector(circ) if pure else DensityMatrix(circ)
+    keep = sorted(data)
+    others = [q for q in range(m) if q not in keep]
+    rho = partial_trace(st, others).data if others else DensityMatrix(st).data
+    perm = [sum(((x >> j) & 1) << keep.index(data[j]) for j in range(len(data))) for x in range(2 ** len(data))]
+    rho = rho[np.ix_(perm, perm)]
+    rest = partial_trace(st, keep).data if others else np.array([[1.0]])
+    return rho, abs(rest[0, 0] - 1)
+
+
+def _div_host(spec):
+    """host circuit + the `qubits` argument of the static helper in the requested form"""
+    from qiskit import QuantumCircuit, QuantumRegister
+    regs = spec["regs"]
+    host = QuantumCircuit(*[QuantumRegister(sz, f"r{j}") for j, sz in enumerate(regs)]) if len(regs) > 1 \
+        else QuantumCircuit(regs[0])
+    order, as_ = spec["order"], spec["as"]
+    if as_ in ("omitted", "none"):
+        return host, None, list(range(host.num_qubits))
+    q = {"list-int": lambda: [int(x) for x in order], "tuple-int": lambda: tuple(int(x) for x in order),
+         "list-qubit": lambda: [host.qubits[x] for x in order], "list-npint64": lambda: [np.int64(x) for x in order],
+         "tuple-qubit": lambda: tuple(host.qubits[x] for x in order)}[as_]()
+    return host, q, list(order)
+
+
+def _div_key(c):
+    key = f"div:{c['entry']}:{c['mode']}:n={c['n']}:k={c['k']}:ens={c['skind']}/{c['sform']}:p={c['pkind']}/{c['pform']}"
+    if c.get("optform", "omitted") != "omitted":
+        key += ":opt=" + c["optform"]
+    if c["entry"] == "static":
+        h = c["host"]
+        key += f":q={h['as']}" + ("" if h["order"] is None else "[" + ",".join(map(str, h["order"])) + f"]of{sum(h['regs'])}")
+    if c.get("label"):
+        key += ":label"
+    return key + f":reset={int(c.get('reset', True))}"
+
+
+def _div_mk(entry, mode, n, k, S, skind, sform, P, pkind, pform, reset=True, opt=None, optform="omitted", host=None,
+            label=None, tie=False):
+    return {"kind": "diversity", "entry": entry, "mode": mode, "n": n, "k": k,
+            "states": [[[float(z.real), float(z.imag)] for z in s] for s in S], "skind": skind, "sform": sform,
+            "probs": [repr(float(x)) for x in P], "pkind": pkind, "pform": pform, "reset": reset, "opt": opt,
+            "optform": optform, "host": host, "label": label, "tie": tie}
+
+
+def _exact_control(self, num_ctrl_qubits=1, label=None, ctrl_state=None, annotated=False):
+    """harness-side stand-in for QuantumCircuit.control: the exactly controlled operator as ONE UnitaryGate (controls = the low
+    wires, rightmost ctrl_state character <-> control 0, as checked in `conventions`)"""
+    from qiskit import QuantumCircuit
+    from qiskit.circuit.library import UnitaryGate
+    from qiskit.quantum_info import Operator
+    u = Operator(self).data
+    nc = num_ctrl_qubits
+    cs = int(ctrl_state, 2) if isinstance(ctrl_state, str) else (2 ** nc - 1 if ctrl_state is None else int(ctrl_state))
+    dim = u.shape[0]
+    m = np.eye(dim * 2 ** nc, dtype=complex)
+    idx = [x * 2 ** nc + cs for x in range(dim)]
+    m[np.ix_(idx, idx)] = u
+    qc = QuantumCircuit(nc + self.num_qubits)
+    qc.append(UnitaryGate(m), range(nc + self.num_qubits))
+    return qc
+
+
+def _bypass(fn, control=False):
+    """fn() with `qclib.unitary._apply_a2` (qiskit's A.2 diagonal-merging pass inside the dense sub-initializer) replaced by
+    the identity and, with control=True, QuantumCircuit.control replaced by the exact controlled operator; None when that
+    raises"""
+    from unittest import mock
+    from qiskit import QuantumCircuit
+    import qclib.unitary as qu
+    try:
+        with mock.patch.object(qu, "_apply_a2", lambda circuit: circuit):
+            if control:
+                with mock.patch.object(QuantumCircuit, "control", _exact_control):
+                    return fn()
+            return fn()
+    except Exception:  # noqa: BLE001
+        return None
+
+
+def _precision_finding(ctx, tag, err, err2, rep, control=False):
+    """Known precision limits of the TRUSTED layers below mixed.py, reported under their own keys, never hidden:
+    (a) dense-a2-precision (findings K-C01-1 / K-C07-1 / K-C06-1): LowRankInitialize -> qclib.unitary.unitary(...,
+        apply_a2=True) is accurate only to ~1e-5 on some two-qubit blocks; the same construction with the A.2 pass bypassed
+        meets the tolerance;
+    (b) qiskit-control-precision: QuantumCircuit.control() unrolls the sub-initializer's two-qubit unitaries through qiskit's
+        Weyl decomposition (fidelity threshold 1 - 1e-9, i.e. ~1e-5 in amplitude); with the exactly controlled operator in
+        its place (and A.2 bypassed) the tolerance is met.
+    Either way the deviation is not in the purification / control bookkeeping of mixed.py."""
+    name = "qiskit-control-precision" if control else "dense-a2-precision"
+    ctx.count(f"precision:{name}")
+    ctx.fail(f"mixed:{name}:{tag}",
+             f"max |Tr_aux(out) - ideal| = {err:.3e}; with " + ("QuantumCircuit.control replaced by the exact controlled operator "
+                                                              "and " if control else "") +
+             "qclib.unitary._apply_a2 bypassed " + ("the tolerance is met" if err2 is None else f"{err2:.3e}") +
+             ": precision limit of " + ("qiskit's .control() synthesis (Weyl decomposition, fidelity 1-1e-9)" if control else
+                                        "qiskit's A.2 pass inside LowRankInitialize (same root cause as K-C01-1)"),
+             dict(rep, err=err, err_bypassed=err2))
+
+
+def _classify_precision(ctx, tag, err, rerun, rep, incircuit):
+    """err in (1e-7, 1e-3]: re-run (`rerun()` -> error) with the trusted synthesis passes bypassed; True when attributed"""
+    if not 1e-7 < err <= 1e-3:
+        return False
+    e2 = _bypass(rerun)
+    if e2 is not None and e2 <= 1e-7:
+        _precision_finding(ctx, tag, err, e2, rep)
+        return True
+    if incircuit:
+        e3 = _bypass(rerun, control=True)
+        if e3 is not None and e3 <= 1e-7:
+            _precision_finding(ctx, tag, err, e3, rep, control=True)
+            return True
+    return False
+
+
+def _div_case(ctx, c, count=True):
+    """run one diversity case on the real code; returns the gate (ctor entry) or None"""
+    from qclib.state_preparation.mixed import MixedInitialize
+    n, k, mode, entry = c["n"], c["k"], c["mode"], c["entry"]
+    a = clog2(k)
+    S = [np.array([complex(re, im) for re, im in s]) for s in c["states"]]
+    P = [float(x) for x in c["probs"]]
+    ens = _div_members(S, c["sform"])
+    probs = _div_probs(P, c["pform"])
+    # the user-side reading of exactly what is handed over
+    S_user = [np.asarray(m, dtype=complex) for m in ens]
+    P_user = [1 / k] * k if probs is None else [float(x) for x in probs]
+    if any(np.abs(x - y).max() > 0 for x, y in zip(S, S_user)) or (probs is not None and P_user != P) or \
+            (probs is None and any(abs(x - 1 / k) > 1e-15 for x in P)):
+        raise RuntimeError("harness: form conversion changed the input " + _div_key(c))
+    opt = None if c.get("opt") is None else dict(c["opt"])        # a fresh dict per case
+    key = _div_key(c)
+    if count:
+        ctx.count(f"diversity:ensemble-form:{c['sform']}:{entry}/{mode}")
+        ctx.count(f"diversity:ensemble-structure:{c['skind']}")
+        ctx.count(f"diversity:probabilities-form:{c['pform']}:{entry}/{mode}")
+        ctx.count(f"diversity:probabilities-structure:{c['pkind']}")
+        ctx.count(f"diversity:size:n={n}:k={k}:{entry}/{mode}")
+        if c.get("optform", "omitted") != "omitted":
+            ctx.count(f"diversity:opt_params:{c['optform']}:{entry}/{mode}")
+        if entry == "static":
+            ctx.count(f"diversity:static-qubits:{c['host']['as']}:host={sum(c['host']['regs'])}/{len(c['host']['regs'])}reg")
+    kw = {}
+    if c["pform"] != "omitted":
+        kw["probabilities"] = probs
+    if c.get("optform", "omitted") != "omitted":
+        kw["opt_params"] = opt
+    if entry == "ctor" and c.get("label"):
+        kw["label"] = c["label"]
+
+    def attempt():
+        if entry == "ctor":
+            g = MixedInitialize(ens, classical=(mode == "classical"), reset=c["reset"], **kw)
+            circ = g.definition
+            data = list(range(a, a + n))
+            wd = g.num_qubits
+        else:
+            g = None
+            host, qarg, order = _div_host(c["host"])
+            kws = dict(kw)
+            if c["host"]["as"] != "omitted":
+                kws["qubits"] = qarg
+            MixedInitialize.initialize(host, ens, **kws)
+            circ = host
+            data = order[a:]
+            wd = host.data[-1].operation.num_qubits if host.data else -1
+        r_, e_ = _div_reduced(circ, data, pure=(entry == "ctor" and not c["reset"]))
+        return g, wd, r_, e_
+    try:
+        gate, width, rho, e_rest = attempt()
+    except Exception as e:  # noqa: BLE001 -- every input generated here is a valid ensemble in an ordinary Python form
+        if c["pkind"] == "f32-inexact" and isinstance(e, ValueError):
+            # not a probability vector to 1e-9: a clean ValueError (validation or the sub-initializer's norm check) is a rejection
+            ctx.count("diversity:probabilities-f32-inexact-rejected")
+            ctx.ok(key + ":rejected", nontrivial=False)
+            return None
+        ctx.fail(key + ":construct-raises", f"valid ensemble ({c['sform']}, probabilities {c['pform']}) raised "
+                 f"{type(e).__name__}: {str(e)[:200]}", c)
+        return None
+    if c["pkind"] == "f32-inexact":
+        ctx.count("diversity:probabilities-f32-inexact-accepted")
+    try:
+        ideal, exact = _div_ideal(S_user, P_user, n, k, mode, opt)
+    except _DivDegenerate:
+        ctx.count("diversity:skipped (rank-1 ideal not unique)")
+        return gate
+    err = float(np.abs(rho - ideal).max())
+    lr1 = bool(opt) and opt.get("lr") == 1
+    nz = sum(1 for p in P_user if p > 0)
+    if width != n + a:
+        ctx.fail(key + ":width", f"gate acts on {width} qubits, n + ceil(log2 k) = {n + a}", c)
+    elif err > 1e-7:
+        if not _classify_precision(ctx, f"{mode}:n={n}:k={k}:{c['skind']}:{c['pkind']}", err,
+                                   lambda: float(np.abs(attempt()[2] - ideal).max()), c, mode == "incircuit"):
+            ctx.fail(key + ":reduced-state", f"max |Tr_aux(out) - " + ("rank-1 truncated ideal" if lr1 else "sum p_i|psi_i><psi_i|") +
+                     f"| = {err:.3e}", dict(c, err=err))
+    elif (c["reset"] or entry == "static") and e_rest > 1e-7:
+        ctx.fail(key + ":other-qubits", f"auxiliary / untouched qubits are not |0> afterwards ({e_rest:.3e})", c)
+    elif gate is not None and gate.label != (c.get("label") or "Mixed"):
+        ctx.fail(key + ":label", f"label {gate.label!r}, requested {c.get('label')!r}", c)
+    else:
+        if lr1:
+            seen = float(np.abs(ideal - exact).max())
+            ctx.count("diversity:opt_params:lr=1 observable" if seen > 1e-3 else "diversity:opt_params:lr=1 NOT observable")
+        ctx.ok(key, nontrivial=k >= 2 and nz >= 2, sample={"diversity": key, "err": err})
+    # tie: what the real code hands to its sub-initializer for this form vs the Lean model (only when the oracle got through)
+    if c.get("tie") and entry == "ctor" and not lr1:
+        tie_purification(ctx, n, k, ens, probs, reset=c["reset"], modes=(mode,),
+                         form=f" [{c['skind']}/{c['sform']} p={c['pkind']}/{c['pform']}]", rep=c)
+    return gate
+
+
+def _div_sform_kind(sform):
+    if sform in DIV_SFORMS_INT:
+        return "basis-int"
+    if sform in DIV_SFORMS_F32:
+        return "dyadic-complex" if "c64" in sform else "dyadic-real"
+    if sform in DIV_SFORMS_REAL:
+        return "real-neg"
+    return "complex"
+
+
+def _div_modes(n, k):
+    return ["classical"] + (["incircuit"] if n >= 2 and k >= 2 else [])
+
+
+def _diversity_element_types(ctx):
+    """(1) every container / dtype of the ensemble and of the probability vector, constructor in both modes"""
+    r = ctx.nprng()
+    pcycle = ["list", "tuple", "ndarray-f64", "list-npfloat64", "omitted", "none"]
+    j = 0
+    for (n, k) in ((2, 3), (2, 2), (3, 2), (1, 2)):
+        for sform in DIV_SFORMS_C128 + DIV_SFORMS_REAL + DIV_SFORMS_F32 + DIV_SFORMS_INT:
+            skind = _div_sform_kind(sform)
+            S = _div_states(r, n, k, skind)
+            for mode in _div_modes(n, k):
+                pform = pcycle[j % len(pcycle)]
+                j += 1
+                pkind = "uniform" if pform in ("omitted", "none") else "dyadic"
+                P = _div_pvec(r, k, pkind)
+                _div_case(ctx, _div_mk("ctor", mode, n, k, S, skind, sform, P, pkind, pform, reset=(j % 3 == 0),
+                                       tie=(n, k) == (2, 3)))
+    # probability vector forms (ensemble as plain ndarrays, so that only the probability form varies)
+    for (n, k) in ((2, 2), (2, 3), (2, 4), (2, 5), (1, 1), (1, 3)):
+        S = _div_states(r, n, k, "complex")
+        for pform in DIV_PFORMS:
+            if "int" in pform:
+                pkinds = ["onehot-first", "onehot-middle", "onehot-last"]
+            elif "32" in pform:
+                pkinds = ["f32-sqrt-exact", "f32-sqrt-inexact", "zero-dyadic-middle", "f32-inexact"]
+            elif pform in ("omitted", "none"):
+                pkinds = ["uniform"]
+            else:
+                pkinds = ["random", "dyadic"]
+            for pkind in pkinds:
+                P = _div_pvec(r, k, pkind)
+                if P is None:
+                    continue
+                for mode in _div_modes(n, k):
+                    j += 1
+                    _div_case(ctx, _div_mk("ctor", mode, n, k, S, "complex", ["ndarray-list-c128", "ndarray-2d-c128"][j % 2],
+                                           P, pkind, pform, reset=(j % 3 == 0), tie=(n, k) == (2, 3) and pkind != "f32-inexact"))
+    ctx.notes.append("diversity: float32 vectors that are not probability vectors to 1e-9 as real numbers (f32-inexact, e.g. "
+                     "float32([0.3, 0.7]): float64 sum off by 1.5e-8) may pass the float32 sum test and be rejected later by the "
+                     "sub-initializer's norm check: a clean ValueError is counted as a rejection, an accepted one must be correct")
+
+
+def _diversity_scale(ctx):
+    """(2) scale structure: heavy head + light tail, exact zeros / an exact 1 by position, all equal, sparse, one sub-tree"""
+    r = ctx.nprng()
+    j = 0
+    pforms = ["list", "tuple", "ndarray-f64"]
+    for k in (2, 3, 4, 5):
+        for pkind in ("uniform", "heavy-head", "light-head", "heavy-middle", "onehot-first", "onehot-middle", "onehot-last",
+                      "zero-first", "zero-middle", "zero-last"):
+            n = 2 if k != 3 or j % 2 else 1
+            P = _div_pvec(r, k, pkind)
+            S = _div_states(r, n, k, "complex")
+            for mode in _div_modes(n, k):
+                j += 1
+                _div_case(ctx, _div_mk("ctor", mode, n, k, S, "complex", ["ndarray-list-c128", "ndarray-2d-c128"][j % 2],
+                                       P, pkind, pforms[j % 3], reset=(j % 3 == 0), tie=k in (3, 5)))
+    for skind in ("light-tail-end", "light-tail-start", "light-tail-mixed", "equal-moduli", "all-neg", "imag", "subtree",
+                  "sparse", "basis-phase", "identical", "orthogonal"):
+        for (n, k) in ((2, 3), (3, 2), (1, 2), (2, 5)):
+            if (n, k) == (2, 5) and skind not in ("orthogonal", "identical", "basis-phase", "light-tail-mixed"):
+                continue
+            S = _div_states(r, n, k, skind)
+            for mode in _div_modes(n, k):
+                j += 1
+                pkind = ["random", "heavy-head", "dyadic"][j % 3]
+                real = all(np.all(s.imag == 0) for s in S)
+                sform = (["ndarray-list-f64", "ndarray-2d-f64"] if real else ["ndarray-list-c128", "ndarray-2d-c128"])[j % 2]
+                _div_case(ctx, _div_mk("ctor", mode, n, k, S, skind, sform, _div_pvec(r, k, pkind), pkind, pforms[j % 3],
+                                       reset=(j % 3 == 0), tie=(n, k) == (2, 3)))
+
+
+def _diversity_phase(ctx):
+    """(3) sign / phase structure: members that differ by a global phase -1 / i only (rho must not change), zero imaginary
+    part with negative entries in complex and in real dtype, negative zeros, per-entry phases +-1, +-i"""
+    r = ctx.nprng()
+    j = 0
+    for skind, sforms in (("phase-family", ["ndarray-list-c128", "ndarray-2d-c128", "pyseq-list-complex"]),
+                          ("phase-family-real", ["ndarray-list-c128", "ndarray-list-f64", "pyseq-list-float"]),
+                          ("real-neg", ["ndarray-list-c128", "ndarray-2d-f64", "pyseq-tuple-complex"]),
+                          ("neg-zero", ["ndarray-list-c128", "ndarray-list-f64", "pyseq-list-float"]),
+                          ("equal-moduli", ["ndarray-tuple-c128", "pyseq-list-npcomplex128"]),
+                          ("dyadic-complex", ["ndarray-list-c64", "ndarray-2d-c128"])):
+        for (n, k) in ((2, 2), (2, 3), (2, 4), (1, 2)):
+            S = _div_states(r, n, k, skind)
+            for mode in _div_modes(n, k):
+                for sform in sforms:
+                    j += 1
+                    if (n, k) in ((2, 4), (1, 2)) and j % 3:
+                        continue
+                    pkind = ["random", "dyadic", "heavy-head"][j % 3]
+                    P = _div_pvec(r, k, pkind)
+                    _div_case(ctx, _div_mk("ctor", mode, n, k, S, skind, sform, P, pkind, ["list", "ndarray-f64", "tuple"][j % 3],
+                                           reset=(j % 3 == 0), tie=(n, k) == (2, 3)))
+                    if skind.startswith("phase-family"):
+                        # the family IS one pure state: the harness' ideal must be |psi><psi| (sanity of the generator)
+                        rho = sum(p * np.outer(s, s.conj()) for p, s in zip(P, S))
+                        if np.abs(rho - np.outer(S[0], S[0].conj())).max() > 1e-12:
+                            raise RuntimeError("harness: phase family is not a single ray")
+
+
+DIV_OPTS = [("none", None), ("empty", {}), ("knill", {"iso_scheme": "knill"}), ("csd", {"unitary_scheme": "csd"}),
+            ("svd-regular", {"svd": "regular"}), ("partition=[1]", {"partition": [1]}),
+            ("lr=0", {"lr": 0}), ("lr=64-ignored", {"lr": 64}),
+            ("full-exact", {"lr": 0, "iso_scheme": "knill", "unitary_scheme": "csd", "partition": [0], "svd": "regular"}),
+            ("lr=1", {"lr": 1}), ("lr=1+partition=[1]", {"lr": 1, "partition": [1]}),
+            ("lr=1+partition=[0]", {"lr": 1, "partition": [0]}),
+            ("full-lr=1", {"lr": 1, "iso_scheme": "knill", "unitary_scheme": "csd", "partition": [1], "svd": "regular"})]
+
+
+def _div_host_spec(r, w, extra, as_, regs=1):
+    """a host of w + extra qubits (in `regs` registers) and a permuted, non-ascending choice of w of its wires"""
+    m = w + extra
+    if as_ in ("omitted", "none"):
+        return {"regs": [m], "order": None, "as": as_}
+    while True:
+        order = [int(x) for x in r.permutation(m)[:w]]
+        if w < 2 or any(order[i] > order[i + 1] for i in range(w - 1)):
+            break
+    if regs == 1 or m < 2:
+        sizes = [m]
+    else:
+        cut = max(1, m // 2)
+        sizes = [cut, m - cut]
+    return {"regs": sizes, "order": order, "as": as_}
+
+
+def _diversity_call_forms(ctx):
+    """(4) call forms: opt_params None / {} / partial / full (lr=1 makes forwarding visible in the reduced state), the static
+    helper with every keyword non-default on a permuted sub-list of a larger host (ints, Qubit objects, two registers),
+    qubits omitted / None, label, dict reuse, gate reuse"""
+    r = ctx.nprng()
+    j = 0
+    # (a) opt_params forms x entry points
+    for (n, k) in ((2, 3), (2, 2), (1, 2)):
+        S = _div_states(r, n, k, "complex")
+        w = n + clog2(k)
+        for tag, opt in DIV_OPTS:
+            if (n, k) != (2, 3) and not tag.startswith(("lr=1", "full", "none", "empty")):
+                continue
+            pkind = ["random", "dyadic", "zero-middle" if k >= 3 else "random"][j % 3]
+            P = _div_pvec(r, k, pkind)
+            for mode in _div_modes(n, k):
+                j += 1
+                _div_case(ctx, _div_mk("ctor", mode, n, k, S, "complex", "ndarray-list-c128", P, pkind,
+                                       ["list", "tuple", "ndarray-f64"][j % 3], reset=(j % 3 == 0), opt=opt, optform=tag,
+                                       label="rho-%d" % j if j % 4 == 0 else None))
+            for as_, extra, regs in (("none", 0, 1), ("list-int", 2, 1), ("list-qubit", 1, 2)):
+                j += 1
+                if (n, k) != (2, 3) and as_ == "none" and not tag.startswith("lr=1"):
+                    continue
+                _div_case(ctx, _div_mk("static", "classical", n, k, S, "complex", ["ndarray-list-c128", "ndarray-2d-c128"][j % 2],
+                                       P, pkind, ["list", "tuple", "ndarray-f64"][j % 3], opt=opt, optform=tag,
+                                       host=_div_host_spec(r, w, extra, as_, regs)))
+    # (b) static helper: qubit-argument forms x sizes x ensemble / probability forms, every keyword given
+    sforms = ["ndarray-list-c128", "ndarray-2d-c128", "ndarray-tuple-c128", "pyseq-list-complex", "ndarray-list-f64",
+              "pyseq-tuple-int", "ndarray-2d-int64", "ndarray-list-c64"]
+    for (n, k) in ((1, 1), (1, 2), (2, 2), (2, 3), (1, 3), (2, 4), (1, 5), (3, 2), (2, 5), (3, 3)):
+        w = n + clog2(k)
+        for as_, extra, regs in (("omitted", 0, 1), ("none", 0, 1), ("list-int", 2, 1), ("tuple-int", 1, 1), ("list-qubit", 2, 2),
+                                 ("tuple-qubit", 1, 2), ("list-npint64", 1, 1), ("list-int", 0, 1)):
+            j += 1
+            if w + extra > 7 or (as_ in ("tuple-int", "tuple-qubit", "list-npint64", "omitted") and j % 2):
+                continue
+            sform = sforms[j % len(sforms)]
+            skind = _div_sform_kind(sform)
+            S = _div_states(r, n, k, skind)
+            pkind = ["random", "heavy-head", "zero-first", "dyadic", "onehot-last"][j % 5]
+            P = _div_pvec(r, k, pkind) or _div_pvec(r, k, "dyadic")
+            if P == _div_pvec(r, k, "dyadic"):
+                pkind = "dyadic"
+            tag, opt = DIV_OPTS[[2, 3, 5, 8, 4][j % 5]] if w >= 2 else DIV_OPTS[2]
+            _div_case(ctx, _div_mk("static", "classical", n, k, S, skind, sform, P, pkind,
+                                   ["list", "tuple", "ndarray-f64", "list-npfloat64"][j % 4], opt=opt, optform=tag,
+                                   host=_div_host_spec(r, w, extra, as_, regs)))
+    # (c) sequences: the same opt_params dict object reused with other contents; the same gate object used repeatedly
+    for (n, k) in ((2, 3), (2, 2), (1, 2)):
+        S, P = _div_states(r, n, k, "complex"), _div_pvec(r, k, "random")
+        for mode in _div_modes(n, k):
+            for entry in ("ctor", "static"):
+                if entry == "static" and mode != "classical":
+                    continue
+                _div_seq(ctx, {"kind": "diversity-seq", "name": "opt-reuse", "entry": entry, "mode": mode, "n": n, "k": k,
+                               "states": [[[float(z.real), float(z.imag)] for z in s] for s in S],
+                               "probs": [repr(x) for x in P]})
+            for reset in (False, True):
+                _div_seq(ctx, {"kind": "diversity-seq", "name": "gate-reuse", "entry": "ctor", "mode": mode, "n": n, "k": k,
+                               "reset": reset, "states": [[[float(z.real), float(z.imag)] for z in s] for s in S],
+                               "probs": [repr(x) for x in P]})
+
+
+def _div_seq(ctx, c, _patched=False):
+    from qclib.state_preparation.mixed import MixedInitialize
+    from qiskit import QuantumCircuit
+    import copy as _copy
+    n, k, mode, name = c["n"], c["k"], c["mode"], c["name"]
+    a = clog2(k)
+    w = n + a
+    S = [np.array([complex(re, im) for re, im in s]) for s in c["states"]]
+    P = [float(x) for x in c["probs"]]
+    base = f"div-seq:{name}:{c['entry']}:{mode}:n={n}:k={k}"
+    ctx.count(f"diversity:sequence:{name}:{c['entry']}/{mode}")
+
+    def judge(key, circ, data, opt, check_rest):
+        try:
+            rho, e_rest = _div_reduced(circ, data, pure=(c["entry"] == "ctor" and not c.get("reset", False)))
+        except Exception as e:  # noqa: BLE001
+            ctx.fail(key + ":construct-raises", f"raised {type(e).__name__}: {str(e)[:200]}", c)
+            return
+        try:
+            ideal, _ = _div_ideal(S, P, n, k, mode, opt)
+        except _DivDegenerate:
+            ctx.count("diversity:skipped (rank-1 ideal not unique)")
+            return
+        err = float(np.abs(rho - ideal).max())
+        if err > 1e-7:
+            if not _patched:
+                # same sequence with the trusted synthesis passes bypassed: does this step meet the tolerance then?
+                import framework
+
+                def rerun():
+                    sub = framework.Ctx(ctx.pid, ctx.tier, 0)
+                    _div_seq(sub, c, _patched=True)
+                    return 1.0 if any(f["key"].startswith(key) for f in sub.failures) else 0.0
+                if _classify_precision(ctx, f"seq:{key}", err, rerun, c, mode == "incircuit"):
+                    return
+            ctx.fail(key + ":reduced-state", f"max |Tr_aux(out) - ideal| = {err:.3e}", dict(c, err=err))
+        elif check_rest and e_rest > 1e-7:
+            ctx.fail(key + ":other-qubits", f"auxiliary / untouched qubits are not |0> afterwards ({e_rest:.3e})", c)
+        else:
+            ctx.ok(key, nontrivial=k >= 2)
+
+    if name == "opt-reuse":
+        # ONE dict object; its contents change between constructions; each gate is built (definition) before the next change
+        opt = {}
+        steps = [("lr=1", {"lr": 1}), ("knill", {"iso_scheme": "knill"}), ("lr=1+partition=[1]", {"lr": 1, "partition": [1]}),
+                 ("empty", {}), ("lr=1+csd", {"lr": 1, "unitary_scheme": "csd"}), ("partition=[1]", {"partition": [1]})]
+        for i, (tag, content) in enumerate(steps):
+            opt.clear()
+            opt.update(_copy.deepcopy(content))
+            key = f"{base}:step={i}:{tag}"
+            try:
+                if c["entry"] == "ctor":
+                    g = MixedInitialize([s.copy() for s in S], opt_params=opt, probabilities=list(P),
+                                        classical=(mode == "classical"), reset=False)
+                    circ, data = g.definition, list(range(a, w))
+                else:
+                    circ = QuantumCircuit(w + 1)
+                    order = list(range(w, 0, -1))
+                    MixedInitialize.initialize(circ, [s.copy() for s in S], qubits=order, opt_params=opt, probabilities=list(P))
+                    data = order[a:]
+            except Exception as e:  # noqa: BLE001
+                ctx.fail(key + ":construct-raises", f"raised {type(e).__name__}: {str(e)[:200]}", c)
+                continue
+            judge(key, circ, data, dict(content), c["entry"] == "static")
+        return
+    if name == "gate-reuse":
+        reset = c["reset"]
+        base += f":reset={int(reset)}"
+
+        def mk():
+            return MixedInitialize([s.copy() for s in S], probabilities=list(P), classical=(mode == "classical"), reset=reset)
+        A, B = list(range(w)), list(range(2 * w - 1, w - 1, -1))
+        variants = []
+        try:
+            g = mk()
+            h = QuantumCircuit(2 * w)
+            h.append(g, A)
+            h.append(g, B)                              # the same object twice, second time on reversed wires
+            variants.append(("appended-twice:first", h, A[a:], False))
+            variants.append(("appended-twice:second", h, B[a:], False))
+            g = mk()
+            g2 = g.copy()                               # copied before the definition was ever built
+            g3 = _copy.deepcopy(g)
+            for tag, gg in (("copy-before-definition", g2), ("deepcopy-before-definition", g3), ("original-after-copy", g)):
+                h = QuantumCircuit(w)
+                h.append(gg, A)
+                variants.append((tag, h, A[a:], reset))
+            g = mk()
+            _ = g.definition
+            g4 = g.copy()                               # copied after the definition was built
+            h = QuantumCircuit(w)
+            h.append(g4, A[::-1])
+            variants.append(("copy-after-definition", h, A[::-1][a:], reset))
+            variants.append(("definition-read-twice", g.definition, A[a:], reset))
+            g5 = g.to_mutable() if hasattr(g, "to_mutable") else g
+            h = QuantumCircuit(w)
+            h.append(g5, A)
+            variants.append(("to_mutable", h, A[a:], reset))
+        except Exception as e:  # noqa: BLE001
+            ctx.fail(base + ":construct-raises", f"raised {type(e).__name__}: {str(e)[:200]}", c)
+            return
+        for tag, circ, data, chk in variants:
+            judge(f"{base}:{tag}", circ, data, None, chk)
+        return
+    raise ValueError(name)
+
+
+def _diversity_sizes(ctx):
+    """(5) k = 1..5 (padding 0, 0, 1, 0, 3) x n = 1, 2, 3 x both modes x constructor and static helper, in non-default forms"""
+    r = ctx.nprng()
+    j = 0
+    for n in (1, 2, 3):
+        for k in (1, 2, 3, 4, 5):
+            w = n + clog2(k)
+            for sform, pform, pkind in (("ndarray-tuple-c128", "tuple", "random"), ("ndarray-2d-f64", "ndarray-f64", "heavy-head"),
+                                        ("pyseq-list-complex", "list-npfloat64", "zero-last")):
+                j += 1
+                if n == 3 and j % 2:
+                    continue
+                skind = _div_sform_kind(sform)
+                S = _div_states(r, n, k, skind)
+                P = _div_pvec(r, k, pkind)
+                if P is None:
+                    P, pkind = _div_pvec(r, k, "dyadic"), "dyadic"
+                for mode in _div_modes(n, k):
+                    if mode == "incircuit" and n == 3 and k == 5 and j % 3:
+                        continue
+                    _div_case(ctx, _div_mk("ctor", mode, n, k, S, skind, sform, P, pkind, pform, reset=(j % 3 == 0), tie=n <= 2))
+                if w + 1 <= 7 and sform != "ndarray-2d-f64":
+                    _div_case(ctx, _div_mk("static", "classical", n, k, S, skind, sform, P, pkind, pform,
+                                           host=_div_host_spec(r, w, 1, ["list-int", "list-qubit"][j % 2], 1 + j % 2)))
+
+
+# --- rejection half of the property, in every container type and through every entry point
+def _div_invalid(k):
+    """(label, vector, expected) for k >= 2 states: invalid vectors of every kind (float32-exact entries where possible) and
+    float-noise vectors that must be accepted"""
+    out = []
+    z = [0.0] * (k - 2)
+    if k >= 3:      # one negative entry, every other entry in [0, 1], sum exactly 1: only the `< 0` test can reject
+        out.append(("one-negative-first", [-0.25, 0.75, 0.5] + [0.0] * (k - 3), "neg"))
+        out.append(("one-negative-middle", [0.75, -0.25, 0.5] + [0.0] * (k - 3), "neg"))
+        out.append(("one-negative-last", [0.5] + [0.0] * (k - 3) + [0.75, -0.25], "neg"))
+    else:
+        out.append(("negative-with-gt1", [-0.25, 1.25], "neg"))
+    out.append(("all-negative", [-1.0 / 4] * k if k == 4 else [-0.5] + [-0.5 / (k - 1)] * (k - 1), "neg"))
+    out.append(("entry-gt1-first", [1.5] + z + [0.0], "gt1"))
+    out.append(("entry-gt1-last", [0.0] + z + [1.5], "gt1"))
+    out.append(("sum+2^-10", [0.5, 0.5 + 2.0 ** -10] + z, "sum"))
+    out.append(("sum-2^-10", [0.5, 0.5 - 2.0 ** -10] + z, "sum"))
+    out.append(("sum=0", [0.0] * k, "sum"))
+    out.append(("sum=2", [1.0, 1.0] + z, "sum"))
+    out.append(("sum-ok-dyadic", _fixed_probs(k), "accept"))
+    return out
+
+
+def _div_noise(r, k):
+    """valid vectors whose float sum is not exactly 1.0 (a few ulp / 1e-12 off): must be ACCEPTED (float64 containers only)"""
+    out = []
+    for _ in range(200):
+        p = r.random(k) + 0.05
+        p = [float(x) for x in p / p.sum()]
+        if sum(p) != 1.0 and abs(sum(p) - 1.0) < 1e-14:
+            out.append(("sum-off-by-ulps", p, "accept"))
+            break
+    p = _fixed_probs(k)
+    p[-1] += 1e-12
+    out.append(("sum+1e-12", p, "accept"))
+    p = _fixed_probs(k)
+    p[0] -= 1e-12
+    out.append(("sum-1e-12", p, "accept"))
+    return out
+
+
+def _div_reject(ctx, c):
+    from qclib.state_preparation.mixed import MixedInitialize
+    from qiskit import QuantumCircuit
+    n, k, mode, entry, pform = c["n"], c["k"], c["mode"], c["entry"], c["pform"]
+    a = clog2(k)
+    P = [float(x) for x in c["probs"]]
+    S = _div_states(None, n, k, "basis-phase")
+    probs = _div_probs(P, pform)
+    key = f"div-reject:{entry}:{mode}:n={n}:k={k}:{c['label']}:{pform}"
+    ctx.count(f"diversity:probability-validation:{c['label']}:{entry}")
+    ctx.count(f"diversity:probability-validation-form:{pform}:{entry}")
+    try:
+        if entry == "ctor":
+            MixedInitialize(S, probabilities=probs, classical=(mode == "classical"))
+        elif entry == "static-none":
+            MixedInitialize.initialize(QuantumCircuit(n + a), S, probabilities=probs)
+        else:
+            MixedInitialize.initialize(QuantumCircuit(n + a + 1), S, qubits=list(range(n + a, 0, -1)), probabilities=probs,
+                                       opt_params={"iso_scheme": "knill"})
+        got = "accept"
+    except Exception as e:  # noqa: BLE001 -- the decision IS the exception class
+        got = "raise " + classify(e)
+    exp = c["expected"]
+    if exp == "accept":
+        if got == "accept":
+            ctx.ok(key, nontrivial=False)
+        else:
+            ctx.fail(key + ":valid-vector-rejected", f"valid probability vector {P} ({pform}) raised: {got}", c)
+    elif got.startswith("raise ValueError"):
+        ctx.ok(key, nontrivial=True, sample={"rejected": c["label"], "form": pform, "entry": entry, "how": got})
+    elif got == "accept":
+        ctx.fail(key + ":invalid-vector-accepted", f"probabilities {P} ({c['label']}, {pform}) accepted, expected ValueError", c)
+    else:
+        ctx.fail(key + ":wrong-exception", f"probabilities {P} ({c['label']}, {pform}) gave '{got}', expected ValueError", c)
+    return got
+
+
+def _diversity_reject(ctx):
+    """invalid probability vectors of every kind x container type x entry point (+ float noise that must be accepted)"""
+    r = ctx.nprng()
+    for k, n in ((2, 2), (3, 2), (5, 2), (4, 1)):
+        for label, P, exp in _div_invalid(k) + _div_noise(r, k):
+            if exp is None:
+                continue
+            for pform in ("list", "tuple", "ndarray-f64", "list-npfloat64", "ndarray-f32", "list-npfloat32"):
+                if "32" in pform and any(float(np.float32(x)) != x for x in P):
+                    continue
+                for entry, mode in (("ctor", "classical"), ("ctor", "incircuit"), ("static-none", "classical"),
+                                    ("static-qubits", "classical")):
+                    if mode == "incircuit" and n < 2:
+                        continue
+                    c = {"kind": "diversity-reject", "entry": entry, "mode": mode, "n": n, "k": k, "label": label,
+                         "probs": [repr(x) for x in P], "pform": pform, "expected": exp}
+                    got = _div_reject(ctx, c)
+                    if entry == "ctor":
+                        tie_decision(ctx, _div_states(None, n, k, "basis-phase"), _div_probs(P, pform), mode == "classical",
+                                     f"div:{label}:{pform}")
+                    if exp == "accept" and got == "accept" and entry == "ctor" and pform in ("list", "ndarray-f64") \
+                            and label != "sum-ok-dyadic":
+                        S = _div_states(r, n, k, "complex")
+                        _div_case(ctx, _div_mk("ctor", mode, n, k, S, "complex", "ndarray-list-c128", P, label, pform,
+                                               reset=False), count=False)
+    # integer vectors
+    for k, n in ((1, 1), (2, 2), (3, 2)):
+        for label, P, exp in (("int-negative", [-1, 1, 1][:k] if k > 1 else [-1], "neg"), ("int-gt1", [2] + [0] * (k - 1), "gt1"),
+                              ("int-sum=2", [1, 1, 0][:k], "sum"), ("int-sum=0", [0] * k, "sum"),
+                              ("int-onehot", [0] * (k - 1) + [1], "accept")):
+            if k == 1 and label in ("int-sum=2",):
+                continue
+            for pform in ("list-int", "tuple-int", "ndarray-int64"):
+                for entry, mode in (("ctor", "classical"), ("ctor", "incircuit"), ("static-qubits", "classical")):
+                    if mode == "incircuit" and (n < 2 or k < 2):
+                        continue
+                    _div_reject(ctx, {"kind": "diversity-reject", "entry": entry, "mode": mode, "n": n, "k": k, "label": label,
+                                      "probs": [repr(float(x)) for x in P], "pform": pform, "expected": exp})
+    # wrong length: the code does not validate it and the property does not list it -> recorded, not judged
+    from qclib.state_preparation.mixed import MixedInitialize
+    S = _div_states(None, 2, 3, "basis-phase")
+    for label, P in (("longer", [0.25] * 4), ("shorter", [0.5, 0.5])):
+        for pform in ("list", "tuple", "ndarray-f64"):
+            try:
+                MixedInitialize(S, probabilities=_div_probs(P, pform))
+                ctx.count(f"diversity:wrong-length (not judged):{label}:{pform}:accepted")
+            except Exception as e:  # noqa: BLE001
+                ctx.count(f"diversity:wrong-length (not judged):{label}:{pform}:raises {type(e).__name__}")
+
+
+DIV_PRECISION_PROBES = [
+    # (mode, reset, probabilities, ensemble as [re, im] pairs): inputs on which the TRUSTED layers below mixed.py are only accurate
+    # to ~1e-5 (found by the diversity sweeps with VERIF_SEED=5 / 2); probed on every run so that the finding line is printed
+    ("classical", False, ["0.5", "0.5"],
+     [[[0.35071741514952925, 0.0], [-0.3202660320324687, 0.0], [-0.5095267666751824, 0.0], [0.2928159431596282, 0.0],
+       [-0.06566933201579257, 0.0], [-0.11471899755315987, 0.0], [-0.5813681135065494, 0.0], [0.2713051196363897, 0.0]],
+      [[0.16809522692018689, 0.0], [0.7643877772334633, 0.0], [-0.2202162501016234, 0.0], [-0.041677510517230974, 0.0],
+       [0.020247345834048205, 0.0], [-0.323623465468399, 0.0], [-0.43655179408632894, 0.0], [0.20372417057362016, 0.0]]]),
+    ("incircuit", True, ["0.43375310321632266", "0.5662468967836773"],
+     [[[-1.4196474900475308e-07, -7.678550385593384e-07], [-0.6538471510448713, 0.4268948972188013],
+       [-0.6055159567869017, 0.15360289777555702], [0.0003950936538153773, -0.0006735401657776325],
+       [0.0007759477999799461, 8.75234934587697e-05], [-3.6878108047025046e-07, -6.882992553302237e-07],
+       [5.846440235155313e-05, -5.1763569812032545e-05], [7.592653529146646e-06, -1.8240469858069927e-06]],
+      [[0.055251359666461906, 0.62224650371345], [0.0005109395444523574, 0.0005905049806019958],
+       [1.119080647002779e-07, 7.72807825565958e-07], [-0.0006632811471544724, -0.00041208429966499926],
+       [4.617471846985498e-07, -6.297181017121146e-07], [3.776466770618449e-06, 6.834751915798353e-06],
+       [-7.477020244765679e-05, 2.2516001597661086e-05], [0.41517628070201296, 0.6613501388397746]]]),
+]
+
+
+def _diversity_precision_probes(ctx):
+    for mode, reset, probs, states in DIV_PRECISION_PROBES:
+        S = [np.array([complex(re, im) for re, im in s]) for s in states]
+        real = all(np.all(s.imag == 0) for s in S)
+        _div_case(ctx, _div_mk("ctor", mode, 3, 2, S, "precision-probe", "ndarray-2d-f64" if real else "ndarray-2d-c128",
+                               [float(x) for x in probs], "precision-probe", "list", reset=reset), count=False)
+
+
+def run_diversity(ctx):
+    _diversity_precision_probes(ctx)
+    _diversity_element_types(ctx)
+    _diversity_scale(ctx)
+    _diversity_phase(ctx)
+    _diversity_call_forms(ctx)
+    _diversity_sizes(ctx)
+    _diversity_reject(ctx)
+
+
 # ----------------------------------------------------------------------------------------------
 def compare(op, impl, model):
     import framework
@@ -994,6 +1983,7 @@ def run(ctx):
     run_options(ctx)
     boundary_decisions(ctx)
     boundary_ensembles(ctx)
+    run_diversity(ctx)
     ctx.notes.append("boundary cases: an entry is exactly at the bound (0.0, -0.0, 1.0), 1e-12 / one ulp beyond it (decided "
                      "by the tie only: the property leaves rounding-size excesses open) or 1e-3 beyond it (tie and oracle)")
     ctx.notes.append("sum offsets within 5e-10..2e-9 of 1 are not generated (builtin sum is compensated in CPython>=3.12, "
@@ -1042,6 +2032,12 @@ def replay(ctx, payload):
         reject_oracle(ctx, got[0], "replay", probs, rp["expected"], rp["n"], rp["k"], rp["classical"])
     elif rp.get("kind") == "option":
         run_options(ctx)
+    elif rp.get("kind") == "diversity":
+        _div_case(ctx, rp)
+    elif rp.get("kind") == "diversity-seq":
+        _div_seq(ctx, rp)
+    elif rp.get("kind") == "diversity-reject":
+        _div_reject(ctx, rp)
     elif rp.get("kind") == "ensemble":
         states = [np.array([complex(a, b) for a, b in s]) for s in rp["states"]]
         probs = None if rp["probs"] is None else [float(x) for x in rp["probs"]]
